@@ -1,5 +1,6 @@
 """C20 - incomplete problems are rejected at set-up (static rules, DESIGN.md C20)."""
 import ast
+import textwrap
 import os
 import sys
 
@@ -111,12 +112,13 @@ def rule_validator_coverage(chk):
     fn = M.find_func(ae, 'check_equation_array_properties')
     _, env = ev.run_function(fn, [T.EMPTY, T.EMPTY])
     comparers = {}
-    for n in ast.walk(fn):
-        if isinstance(n, ast.FunctionDef) and n is not fn:
-            reads_props = any(isinstance(a, ast.Attribute) and a.attr in ('properties', 'constants')
-                              for a in ast.walk(n))
-            if reads_props:
-                comparers[n.name] = n
+    called = set(c.func.id for c in M.calls(fn) if isinstance(c.func, ast.Name))
+    cands = [n for n in ast.walk(fn) if isinstance(n, ast.FunctionDef) and n is not fn] + [n for n in ae.body if isinstance(n, ast.FunctionDef) and n is not fn and n.name in called]
+    for n in cands:
+        # closures of the validator, or module-level helpers it calls, that compare with the properties / constants of an array
+        reads_props = any(isinstance(a, ast.Attribute) and a.attr in ('properties', 'constants') for a in ast.walk(n))
+        if reads_props:
+            comparers[n.name] = n
     sites = []
     for c in M.calls(fn):
         if isinstance(c.func, ast.Name) and c.func.id in comparers and M.enclosing_func(c) is fn and len(c.args) >= 2:
@@ -140,9 +142,9 @@ def rule_validator_coverage(chk):
         return
     for role, want, sd, notsd in (('dest', emit_d, 'D', 'S'), ('source', emit_s, 'S', 'D')):
         if not roles[role]:
-            chk.violated('validator-covers-emitted-names', role + ':never-checked', node=fn, file=AE,
-                         func=fn.name,
-                         detail='no comparison of the %s array(s) against required names is reachable' % role)
+            # the comparison is not written as a closure / helper call this rule knows: which names are demanded from which array is decided by the model run
+            # (rule_validator_model); only the provenance of the emitted names is recorded here
+            chk.note('validator shape not recognised for the %s side: decided by the model cases only' % role)
             continue
         for c in roles[role]:
             tg = set(T.flat(ev.ev(c.args[1], env)))
@@ -350,6 +352,66 @@ def rule_message(chk):
     chk.floor('raise sites in validator', n, 3)
 
 
+def rule_validator_model(chk):
+    """check_equation_array_properties decided on model inputs: the function is interpreted (E8) on a model equation and model particle arrays; what
+    get_arrays_used_in_equation and Group([equation]).get_array_names() report is fixed by the rule (explicit s_m, s_rho / d_au, d_x; precomputed s_h / d_h), so the cases say
+    which names must be demanded from which array whatever way the function is written."""
+    from verif_static import emit as EM, absint as AI, eqindex as EI
+    fn = M.find_func(M.py(AE), 'check_equation_array_properties')
+    FULL = ['au', 'x', 'h', 'm', 'rho', 'p']
+
+    def run(dest_props, src_props, dest='fluid', sources=('fluid', 'solid'), dest_consts=(), second_src_props=None):
+        calls = []
+
+        def used(interp, f, args, kwargs, node, env):
+            calls.append(('used', args[0] if args else None))
+            return (set(['s_m', 's_rho']), set(['d_au', 'd_x']))
+
+        def group(interp, f, args, kwargs, node, env):
+            calls.append(('group', args[0] if args else None))
+            return EM.mock(get_array_names=lambda i, a, k, n, e: (set(['s_h']), set(['d_h'])), precomputed={}, equations=list(args[0]) if args and isinstance(args[0], list) else [])
+        it = AI.Interp(EI.index(), AI.Config([]), intrinsics={(EQ, None, 'get_arrays_used_in_equation'): used, (EQ, 'Group'): group})
+        eq_ = EM.mock(name='EqX', dest=dest, sources=list(sources) if sources is not None else None, no_source=sources is None)
+        pas = [EM.mock(name='fluid', properties=dict((k, None) for k in dest_props), constants=dict((k, None) for k in dest_consts)),
+               EM.mock(name='solid', properties=dict((k, None) for k in (second_src_props if second_src_props is not None else src_props)), constants={})]
+        try:
+            EM.call_function(it, AE, 'check_equation_array_properties', eq_, pas)
+            return 'ok', '', calls, eq_
+        except AI.Raised as e:
+            msg = ' '.join(str(x) for x in (getattr(e, 'args_values', None) or []))
+            return 'raised', msg, calls, eq_
+    cases = [
+        ('complete', dict(dest_props=FULL, src_props=FULL), 'ok', ()),
+        ('dest-lacks-explicit-name', dict(dest_props=[k for k in FULL if k != 'au'], src_props=FULL), 'raised', ('EqX', 'fluid', 'au')),
+        ('dest-lacks-precomputed-name', dict(dest_props=[k for k in FULL if k != 'h'] + ['extra'], src_props=FULL), 'raised', ('EqX', 'fluid', 'h')),
+        ('second-source-lacks-explicit-name', dict(dest_props=FULL, src_props=[k for k in FULL if k != 'm']), 'raised', ('EqX', 'solid', 'm')),
+        ('source-lacks-precomputed-name', dict(dest_props=FULL, src_props=[k for k in FULL if k != 'h'] + ['extra']), 'raised', ('EqX', 'solid', 'h')),
+        ('constants-count', dict(dest_props=[k for k in FULL if k != 'rho'], src_props=FULL, dest_consts=['rho', 'c0']), 'ok', ()),
+        ('source-only-name-not-demanded-from-dest', dict(dest_props=['au', 'x', 'h', 'extra1', 'extra2', 'extra3'], src_props=FULL, sources=('solid',)), 'ok', ()),
+        ('dest-only-name-not-demanded-from-source', dict(dest_props=FULL, src_props=['h', 'm', 'rho', 'extra1', 'extra2'], sources=('solid',)), 'ok', ()),
+        ('dest-that-is-also-a-source-lacks-source-name', dict(dest_props=[k for k in FULL if k != 'm'] + ['extra'], src_props=FULL, sources=('solid', 'fluid')), 'raised', ('EqX', 'fluid', 'm')),
+        ('unknown-dest', dict(dest_props=FULL, src_props=FULL, dest='nope'), 'raised', ('EqX', 'nope')),
+        ('unknown-source', dict(dest_props=FULL, src_props=FULL, sources=('fluid', 'nope')), 'raised', ('EqX', 'nope')),
+        ('no-sources', dict(dest_props=['au', 'x', 'h', 'extra'], src_props=[], sources=None), 'ok', ()),
+    ]
+    try:
+        for label, kw, want, words in cases:
+            got, msg, calls, eq_ = run(**kw)
+            ok = got == want and all(w in msg for w in words)
+            chk.decide(ok, 'validator-covers-emitted-names', 'model:' + label, node=fn, file=AE, func=fn.name,
+                       detail_bad='model case %s: expected %s%s, the validator %s%s' % (label, want, (' with a message naming %s' % (words,)) if words else '', got, (' saying %r' % msg[:200]) if msg else ''),
+                       detail_ok='%s%s' % (want, (' naming %s' % (words,)) if words else ''))
+            if label == 'complete':
+                # the required names come from the two functions the pointer set-up is generated from, asked about the equation at hand
+                u_ok = any(k == 'used' and a is eq_ for k, a in calls)
+                g_ok = any(k == 'group' and isinstance(a, list) and len(a) == 1 and a[0] is eq_ for k, a in calls)
+                chk.decide(u_ok and g_ok, 'validator-covers-emitted-names', 'model:names-from-the-emitters-sources', node=fn, file=AE, func=fn.name,
+                           detail_bad='the validator does not take the required names from get_arrays_used_in_equation(equation) and Group([equation]).get_array_names() (calls: %s)'
+                                      % [k for k, a in calls], detail_ok='explicit names and precomputed-symbol names of this equation')
+    except AI.Unsupported as e:
+        chk.undecided('validator-covers-emitted-names', 'model', node=fn, file=AE, func=fn.name, detail='validator not interpretable on the model: %s' % e)
+
+
 def rule_steppers(chk):
     ih = M.py(IH)
     cls = M.find_class(ih, 'IntegratorCythonHelper')
@@ -366,72 +428,7 @@ def rule_steppers(chk):
             chk.violated('stepper-names-validated-in-constructor', 'guard', node=guard, file=IH,
                          func='IntegratorCythonHelper.__init__',
                          detail='stepper validation is skipped under condition %s' % M.unparse(guard.test))
-    cis = M.find_func(cls, '_check_integrator_steppers')
-    ok = any(isinstance(n, ast.If) and isinstance(n.test, ast.Compare) and isinstance(n.test.ops[0], ast.NotIn)
-             and any(M.call_name(c) in ('self._runtime_error',) or isinstance(c, ast.Raise)
-                     for b in n.body for c in ast.walk(b))
-             for n in ast.walk(cis))
-    chk.decide(ok, 'stepper-names-validated-in-constructor', 'not-in-raises', node=cis, file=IH,
-               func='_check_integrator_steppers', detail_bad='no raise for a stepper key that is not an array name',
-               detail_ok='unknown stepper array name raises')
-    rt = M.find_func(cls, '_runtime_error')
-    chk.decide(any(isinstance(n, ast.Raise) for n in ast.walk(rt)), 'stepper-names-validated-in-constructor',
-               '_runtime_error-raises', node=rt, file=IH, func='_runtime_error',
-               detail_bad='_runtime_error no longer raises', detail_ok='raises RuntimeError')
-    # emit functions of pointer set-up for steppers
-    setup = M.find_func(cls, 'get_array_setup')
-    decl = M.find_func(cls, 'get_array_declarations')
-    chkfn = M.find_func(cls, '_check_arrays_for_properties')
-
-    def names_expr(fn):
-        """the `get_array_names(self.get_args(dest, method))` call"""
-        for c in M.calls(fn):
-            if M.call_name(c) == 'get_array_names':
-                return c
-        return None
-    e1, e2 = names_expr(setup), names_expr(decl)
-    if e1 is None or e2 is None:
-        chk.undecided('stepper-arrays-validated-before-emission', 'name-source', node=setup, file=IH,
-                      func='get_array_setup', detail='cannot find get_array_names(...) in set-up/declaration')
-        return
-    same = M.unparse(e1) == M.unparse(e2)
-    chk.decide(same, 'stepper-arrays-validated-before-emission', 'same-name-source', node=e2, file=IH,
-               func='get_array_declarations',
-               detail_bad='declarations validate %s but set-up emits %s' % (M.unparse(e2), M.unparse(e1)),
-               detail_ok='both derive names from ' + M.unparse(e1))
-    # in decl: for every dest, _check_arrays_for_properties(dest, <all names>) is called in the loop
-    cc = [c for c in M.calls(decl) if M.call_name(c) == 'self._check_arrays_for_properties']
-    ok = False
-    detail = 'no call to _check_arrays_for_properties'
-    for c in cc:
-        loop = M.enclosing(c, (ast.For,))
-        if loop is None or 'steppers' not in M.unparse(loop.iter):
-            detail = 'validation is not inside the loop over all steppers'
-            continue
-        if M.enclosing(c, (ast.If,)) is not None and M.enclosing(c, (ast.If,)).lineno > loop.lineno:
-            detail = 'validation is conditional: %s' % M.unparse(M.enclosing(c, (ast.If,)).test)
-            continue
-        # the validated set must cover both tuple elements of the names call
-        tgt = None
-        for s in loop.body:
-            if isinstance(s, ast.Assign) and s.value is e2 and isinstance(s.targets[0], ast.Tuple):
-                tgt = [M.unparse(x) for x in s.targets[0].elts]
-        arg = c.args[1] if len(c.args) > 1 else None
-        used = set(x.id for x in ast.walk(arg) if isinstance(x, ast.Name)) if arg is not None else set()
-        if tgt and set(tgt) <= used:
-            ok = True
-        else:
-            detail = 'validated set %s does not cover %s' % (M.unparse(arg) if arg is not None else None, tgt)
-    chk.decide(ok, 'stepper-arrays-validated-before-emission', 'all-dests-all-names', node=decl, file=IH,
-               func='get_array_declarations', detail_bad=detail,
-               detail_ok='every stepper array, source and destination style names')
-    # the validator compares against properties U constants and raises
-    src = M.unparse(chkfn)
-    ok = 'properties' in src and 'constants' in src and any(
-        M.call_name(c) == 'self._runtime_error' or isinstance(c, ast.Raise) for c in ast.walk(chkfn))
-    chk.decide(ok, 'stepper-arrays-validated-before-emission', 'validator-raises', node=chkfn, file=IH,
-               func='_check_arrays_for_properties',
-               detail_bad='does not compare with properties+constants and raise', detail_ok='raises on difference')
+    # what the validators accept and reject, and which names they are given, is decided on model runs (rule_stepper_check_scope)
     # template: declarations (which validate) dominate set-up in every stage wrapper
     tpl = MT.parse_template(ITPL)
     top = tpl.fn('__template__')
@@ -549,17 +546,61 @@ def rule_stepper_check_scope(chk):
             return None
         st_a = EM.mock(stage1=EM.func('def stage1(self, d_idx, d_x, d_u, dt):\n    pass'))
         st_b = EM.mock(stage1=EM.func('def stage1(self, d_idx, d_y, d_fx, dt):\n    pass'))
-        st_c = EM.mock(stage1=EM.func('def stage1(self, d_idx, d_x, d_rho, dt):\n    pass'))
-        obj = EM.mock(steppers={'wall': st_b, 'fluid': st_a, 'gas': st_c})
-        types = dict((k, EM.mock(type='double*')) for k in ('d_x', 'd_u', 'd_y', 'd_fx', 'd_rho'))
-        h = EM.instance(it, IHF, 'IntegratorCythonHelper', object=obj, _check_arrays_for_properties=rec, acceleration_eval_helper=EM.mock(known_types=types))
+        st_c = EM.mock(stage1=EM.func('def stage1(self, d_idx, d_x, d_rho, s_m, dt):\n    pass'))
+        # two destinations share one stepper object (gas, gas2); one stepper takes a source-style name as well
+        obj = EM.mock(steppers={'wall': st_b, 'fluid': st_a, 'gas': st_c, 'gas2': st_c})
+        types = dict((k, EM.mock(type='double*')) for k in ('d_x', 'd_u', 'd_y', 'd_fx', 'd_rho', 's_m'))
+        aeh = EM.mock(known_types=types, object=EM.mock(particle_arrays=[EM.mock(name=n_) for n_ in ('wall', 'fluid', 'gas', 'gas2')]))
+        h = EM.instance(it, IHF, 'IntegratorCythonHelper', _check_arrays_for_properties=rec)
+        EM.call(it, h, '__init__', obj, aeh)            # built by its own constructor, so that whatever it prepares exists
+        h.attrs['_check_arrays_for_properties'] = rec
+        del calls[:]
         EM.call(it, h, 'get_array_declarations', 'stage1')
-        want = {'wall': frozenset(['d_y', 'd_fx']), 'fluid': frozenset(['d_x', 'd_u']), 'gas': frozenset(['d_x', 'd_rho'])}
+        want = {'wall': frozenset(['d_y', 'd_fx']), 'fluid': frozenset(['d_x', 'd_u']), 'gas': frozenset(['d_x', 'd_rho', 's_m']), 'gas2': frozenset(['d_x', 'd_rho', 's_m'])}
         got = dict(calls)
-        chk.decide(got == want and len(calls) == 3, 'stepper-arrays-validated-before-emission', 'each-array-against-its-own-stepper', node=fn, file=IHF, func='get_array_declarations',
-                   detail_bad='for steppers wall(d_y, d_fx), fluid(d_x, d_u), gas(d_x, d_rho) the arrays are validated against %s; expected each against the arguments of its own stepper %s'
+        chk.decide(got == want, 'stepper-arrays-validated-before-emission', 'each-array-against-its-own-stepper', node=fn, file=IHF, func='get_array_declarations',
+                   detail_bad='for steppers wall(d_y, d_fx), fluid(d_x, d_u), gas and gas2 sharing one stepper (d_x, d_rho, s_m) the arrays are validated against %s; expected each against the arguments of its own stepper %s'
                               % (dict((k, sorted(v) if isinstance(v, frozenset) else v) for k, v in calls), dict((k, sorted(v)) for k, v in want.items())),
                    detail_ok='model run with three steppers: each destination validated against exactly its own stepper\'s arrays')
+        # the pointer set-up emitted for a destination binds exactly the names that were validated for it
+        same_ok = True
+        seen_setup = {}
+        for d_ in ('wall', 'fluid', 'gas', 'gas2'):
+            txt = EM.call(it, h, 'get_array_setup', d_, 'stage1')
+            bound = set()
+            for st in ast.parse(textwrap.dedent(txt)).body:
+                if isinstance(st, ast.Assign) and isinstance(st.targets[0], ast.Name):
+                    bound.add(st.targets[0].id)
+            seen_setup[d_] = sorted(bound)
+            same_ok = same_ok and frozenset(bound) == want[d_]
+        chk.decide(same_ok, 'stepper-arrays-validated-before-emission', 'same-name-source', node=fn, file=IHF, func='get_array_setup',
+                   detail_bad='pointer set-up binds %s but the validated names are %s' % (seen_setup, dict((k, sorted(v)) for k, v in want.items())),
+                   detail_ok='set-up binds exactly the validated names')
+        # the validators themselves: a missing name raises, names found among properties or constants pass; an unknown stepper key raises
+        def raises(callable_):
+            try:
+                callable_()
+                return False
+            except AI.Unsupported as e2:
+                return 'raised' in str(e2)
+            except AI.Raised:
+                return True
+        pa_ok = EM.mock(name='fluid', properties={'x': None, 'u': None}, constants={'rho0': None})
+        h2 = EM.instance(it, IHF, 'IntegratorCythonHelper', object=obj, _particle_arrays={'fluid': pa_ok})
+        r_missing = raises(lambda: EM.call(it, h2, '_check_arrays_for_properties', 'fluid', set(['d_x', 'd_p'])))
+        r_present = raises(lambda: EM.call(it, h2, '_check_arrays_for_properties', 'fluid', set(['d_x', 'd_u', 'd_rho0'])))
+        chkfn = M.find_method(M.py(IHF), 'IntegratorCythonHelper', '_check_arrays_for_properties')
+        chk.decide(r_missing and not r_present, 'stepper-arrays-validated-before-emission', 'validator-raises', node=chkfn, file=IHF, func='_check_arrays_for_properties',
+                   detail_bad='on a model array with properties x, u and constant rho0: names {d_x, d_p} %s, names {d_x, d_u, d_rho0} %s (a missing name must raise, properties and '
+                              'constants must both count)' % ('raise' if r_missing else 'pass', 'raise' if r_present else 'pass'), detail_ok='missing name raises; properties + constants accepted')
+        h3 = EM.instance(it, IHF, 'IntegratorCythonHelper', object=EM.mock(steppers={'fluid': st_a, 'ghost': st_b}), _particle_arrays={'fluid': pa_ok})
+        h4 = EM.instance(it, IHF, 'IntegratorCythonHelper', object=EM.mock(steppers={'fluid': st_a}), _particle_arrays={'fluid': pa_ok})
+        r_unknown = raises(lambda: EM.call(it, h3, '_check_integrator_steppers'))
+        r_known = raises(lambda: EM.call(it, h4, '_check_integrator_steppers'))
+        cis = M.find_method(M.py(IHF), 'IntegratorCythonHelper', '_check_integrator_steppers')
+        chk.decide(r_unknown and not r_known, 'stepper-names-validated-in-constructor', 'not-in-raises', node=cis, file=IHF, func='_check_integrator_steppers',
+                   detail_bad='a stepper keyed by a name that is no particle array %s; valid keys %s' % ('raises' if r_unknown else 'is accepted', 'raise' if r_known else 'pass'),
+                   detail_ok='unknown stepper array name raises')
     except (AI.Unsupported, AI.Raised) as e:
         chk.undecided('stepper-arrays-validated-before-emission', 'each-array-against-its-own-stepper', node=fn, file=IHF, func='get_array_declarations', detail='not interpretable: %s' % e)
 
@@ -571,7 +612,8 @@ def main(chk):
                        'the message depends on equation name and missing set, stepper arrays are validated before '
                        'emission (template dominance), validation dominates compilation.')
     rule_validator_coverage(chk)
-    rule_unknown_names(chk)
+    rule_validator_model(chk)
+    # (unknown array names: decided by the model cases unknown-dest / unknown-source of rule_validator_model)
     rule_no_shortcut(chk)
     rule_message(chk)
     rule_steppers(chk)
